@@ -95,3 +95,33 @@ func H_C16_str() {
 	}
 	vReach("end")
 }
+
+// H_C16_twice: a header block with value parsers attached in which a header
+// of kind k (0 From, 1 To, 2 Call-ID, 3 CSeq, 4 Contact, 5 Expires, 6
+// Content-Length, 7 P-Asserted-Identity, 8 Via; names in symbolic letter
+// case) occurs twice: every occurrence gets the table's classification.
+func H_C16_twice(k int) {
+	names := [...]string{"From", "To", "Call-ID", "CSeq", "Contact", "Expires", "Content-Length", "P-Asserted-Identity", "Via"}
+	vals := [...]string{"<a>;tag=1", "<b>", "x1", "1 INVITE", "<c>;expires=5", "300", "0", "<d>", "SIP/2.0/UDP h"}
+	var x nb
+	x.ci(names[k])
+	x.lit(": " + vals[k] + "\r\nX-a: b\r\n")
+	x.ci(names[k])
+	x.lit(" : " + vals[k] + "\r\n\r\n")
+	var hl HdrLst
+	var hb [4]Hdr
+	hl.Hdrs = hb[:]
+	var pv PHdrVals
+	o, e := ParseHeaders(x.b, 0, &hl, &pv)
+	vObs("o", o)
+	vObs("e", int(e))
+	vAssert("accepted", e == 0 && hl.N == 3)
+	if e != 0 || hl.N != 3 {
+		return
+	}
+	want := refHdrType([]byte(names[k]))
+	vAssert("first-occurrence-type", int(hl.Hdrs[0].Type) == want)
+	vAssert("other-header-type", hl.Hdrs[1].Type == HdrOther)
+	vAssert("second-occurrence-type", int(hl.Hdrs[2].Type) == want)
+	vReach("end")
+}
